@@ -1,0 +1,218 @@
+//go:build verif
+
+package server
+
+import (
+	"net"
+	"sync"
+	"sync/atomic"
+
+	"golang.org/x/net/ipv4"
+	"golang.org/x/net/ipv6"
+
+	"github.com/coredhcp/coredhcp/handler"
+)
+
+// Verification hooks (build tag verif): listeners without sockets. The methods
+// WriteTo / ReadFrom / LocalAddr declared here on *listener4 / *listener6 shadow the
+// ones promoted from the embedded PacketConn, so the unmodified HandleMsgN and Serve
+// code paths run against a capture sink. Listeners that were not created through
+// VerifListenerN keep talking to their real connection.
+
+// VerifSent is one datagram handed to WriteTo by HandleMsg4/HandleMsg6.
+type VerifSent struct {
+	Data    []byte
+	Peer    net.Addr
+	HasCM   bool // a control message was passed
+	IfIndex int  // its IfIndex
+}
+
+// VerifIO is the environment of a socket-less listener.
+type VerifIO struct {
+	// Sent receives every datagram written by the listener.
+	Sent func(VerifSent)
+	// Recv feeds Serve: it fills b and returns the datagram length, the receiving
+	// interface index (0 = no control message) and the peer; ok=false ends Serve
+	// with net.ErrClosed.
+	Recv func(b []byte) (n int, ifindex int, peer *net.UDPAddr, ok bool)
+}
+
+var (
+	verifMu  sync.RWMutex
+	verifIO4 = map[*listener4]*VerifIO{}
+	verifIO6 = map[*listener6]*VerifIO{}
+)
+
+// VerifListener4 is an exported handle on a socket-less DHCPv4 listener.
+type VerifListener4 struct{ l *listener4 }
+
+// VerifListener6 is an exported handle on a socket-less DHCPv6 listener.
+type VerifListener6 struct{ l *listener6 }
+
+// NewVerifListener4 builds a DHCPv4 listener bound to ifi (zero value = unbound).
+func NewVerifListener4(ifi net.Interface, handlers []handler.Handler4, io *VerifIO) *VerifListener4 {
+	l := &listener4{Interface: ifi, handlers: handlers}
+	verifMu.Lock()
+	verifIO4[l] = io
+	verifMu.Unlock()
+	return &VerifListener4{l}
+}
+
+// NewVerifListener6 builds a DHCPv6 listener bound to ifi (zero value = unbound).
+func NewVerifListener6(ifi net.Interface, handlers []handler.Handler6, io *VerifIO) *VerifListener6 {
+	l := &listener6{Interface: ifi, handlers: handlers}
+	verifMu.Lock()
+	verifIO6[l] = io
+	verifMu.Unlock()
+	return &VerifListener6{l}
+}
+
+// HandleMsg4 calls the real per-datagram entry point.
+func (v *VerifListener4) HandleMsg4(buf []byte, oob *ipv4.ControlMessage, peer net.Addr) {
+	v.l.HandleMsg4(buf, oob, peer)
+}
+
+// HandleMsg6 calls the real per-datagram entry point.
+func (v *VerifListener6) HandleMsg6(buf []byte, oob *ipv6.ControlMessage, peer *net.UDPAddr) {
+	v.l.HandleMsg6(buf, oob, peer)
+}
+
+// Serve runs the real receive loop against VerifIO.Recv.
+func (v *VerifListener4) Serve() error { return v.l.Serve() }
+
+// Serve runs the real receive loop against VerifIO.Recv.
+func (v *VerifListener6) Serve() error { return v.l.Serve() }
+
+// Release forgets the listener.
+func (v *VerifListener4) Release() { verifMu.Lock(); delete(verifIO4, v.l); verifMu.Unlock() }
+
+// Release forgets the listener.
+func (v *VerifListener6) Release() { verifMu.Lock(); delete(verifIO6, v.l); verifMu.Unlock() }
+
+func (l *listener4) verifIO() *VerifIO {
+	verifMu.RLock()
+	defer verifMu.RUnlock()
+	return verifIO4[l]
+}
+
+func (l *listener6) verifIO() *VerifIO {
+	verifMu.RLock()
+	defer verifMu.RUnlock()
+	return verifIO6[l]
+}
+
+// WriteTo shadows the promoted (*ipv4.PacketConn).WriteTo.
+func (l *listener4) WriteTo(b []byte, cm *ipv4.ControlMessage, dst net.Addr) (int, error) {
+	io := l.verifIO()
+	if io == nil {
+		return l.PacketConn.WriteTo(b, cm, dst)
+	}
+	s := VerifSent{Data: append([]byte(nil), b...), Peer: dst}
+	if cm != nil {
+		s.HasCM, s.IfIndex = true, cm.IfIndex
+	}
+	if io.Sent != nil {
+		io.Sent(s)
+	}
+	return len(b), nil
+}
+
+// ReadFrom shadows the promoted (*ipv4.PacketConn).ReadFrom.
+func (l *listener4) ReadFrom(b []byte) (int, *ipv4.ControlMessage, net.Addr, error) {
+	io := l.verifIO()
+	if io == nil {
+		return l.PacketConn.ReadFrom(b)
+	}
+	if io.Recv == nil {
+		return 0, nil, nil, net.ErrClosed
+	}
+	n, ifindex, peer, ok := io.Recv(b)
+	if !ok {
+		return 0, nil, nil, net.ErrClosed
+	}
+	var cm *ipv4.ControlMessage
+	if ifindex != 0 {
+		cm = &ipv4.ControlMessage{IfIndex: ifindex}
+	}
+	return n, cm, peer, nil
+}
+
+// LocalAddr shadows the promoted method (Serve logs it).
+func (l *listener4) LocalAddr() net.Addr {
+	if l.verifIO() == nil {
+		return l.PacketConn.LocalAddr()
+	}
+	return &net.UDPAddr{IP: net.IPv4zero, Port: 67}
+}
+
+// WriteTo shadows the promoted (*ipv6.PacketConn).WriteTo.
+func (l *listener6) WriteTo(b []byte, cm *ipv6.ControlMessage, dst net.Addr) (int, error) {
+	io := l.verifIO()
+	if io == nil {
+		return l.PacketConn.WriteTo(b, cm, dst)
+	}
+	s := VerifSent{Data: append([]byte(nil), b...), Peer: dst}
+	if cm != nil {
+		s.HasCM, s.IfIndex = true, cm.IfIndex
+	}
+	if io.Sent != nil {
+		io.Sent(s)
+	}
+	return len(b), nil
+}
+
+// ReadFrom shadows the promoted (*ipv6.PacketConn).ReadFrom.
+func (l *listener6) ReadFrom(b []byte) (int, *ipv6.ControlMessage, net.Addr, error) {
+	io := l.verifIO()
+	if io == nil {
+		return l.PacketConn.ReadFrom(b)
+	}
+	if io.Recv == nil {
+		return 0, nil, nil, net.ErrClosed
+	}
+	n, ifindex, peer, ok := io.Recv(b)
+	if !ok {
+		return 0, nil, nil, net.ErrClosed
+	}
+	var cm *ipv6.ControlMessage
+	if ifindex != 0 {
+		cm = &ipv6.ControlMessage{IfIndex: ifindex}
+	}
+	return n, cm, peer, nil
+}
+
+// LocalAddr shadows the promoted method (Serve logs it).
+func (l *listener6) LocalAddr() net.Addr {
+	if l.verifIO() == nil {
+		return l.PacketConn.LocalAddr()
+	}
+	return &net.UDPAddr{IP: net.IPv6unspecified, Port: 547}
+}
+
+// VerifFrame is a fully serialised Ethernet frame that sendEthernet was about to
+// put on an AF_PACKET socket.
+type VerifFrame struct {
+	Iface net.Interface
+	Data  []byte
+}
+
+var verifFrameFn atomic.Pointer[func(VerifFrame)]
+
+// VerifSetFrameSink installs (or, with nil, removes) the L2 frame sink. While a sink is
+// installed sendEthernet hands it the frame instead of opening a raw socket.
+func VerifSetFrameSink(f func(VerifFrame)) {
+	if f == nil {
+		verifFrameFn.Store(nil)
+		return
+	}
+	verifFrameFn.Store(&f)
+}
+
+func verifFrameSink(iface net.Interface, data []byte) bool {
+	f := verifFrameFn.Load()
+	if f == nil {
+		return false
+	}
+	(*f)(VerifFrame{Iface: iface, Data: append([]byte(nil), data...)})
+	return true
+}
